@@ -212,3 +212,23 @@ theorem C19_same_exit (cfg : Cfg) (w w' : World) (hw : w.sound) (t : Tree) :
 example : World.fine.sound := ⟨rfl, fun _ => rfl⟩
 
 end Cv
+
+namespace Cv
+open MM
+
+theorem applyEff_print (cfg : Cfg) (d : OutDir) (e : Eff) (h : e.isPrint = true) : applyEff cfg d e = d := by
+  cases e <;> simp_all [Eff.isPrint, applyEff]
+
+/-- the output directory after a dry run, as far as the run is concerned: nothing in it, nothing disturbed -/
+theorem C19_dry_run_leaves_outdir_empty (cfg : Cfg) (w : World) (t : Tree) (h : cfg.dryRun = true) :
+    finalOut cfg (process cfg w t) = { files := [], links := [], clash := false } := by
+  unfold finalOut
+  have hp := C19_dry_run_touches_nothing cfg w t h
+  generalize (process cfg w t).effs = l at hp
+  induction l with
+  | nil => rfl
+  | cons e l ih =>
+    rw [List.foldl_cons, applyEff_print cfg _ e (hp e (by simp))]
+    exact ih (fun x hx => hp x (by simp [hx]))
+
+end Cv
